@@ -166,22 +166,27 @@ package jsonschema
 
 //@ contract (*state).validate(st, instance, schema, callerAnns)
 //@   requires new(st)
-//@   requires wfRS(st.rs)
-//@   requires isold(schema) && inRS(st.rs, schema)
+//@   let rs = st.rs
+//@   let stk0 = st.stack
+//@   requires isold(rs)
+//@   requires wfRS(rs)
+//@   requires isold(schema)
+//@   requires inRS(rs, schema)
 //@   requires shaped(instance)
-//@   requires stackOK: forall i int :: 0 <= i && i < len(st.stack) ==> inRS(st.rs, st.stack[i])
+//@   requires newOrNil(stk0)
+//@   requires stackOK: forall i int :: 0 <= i && i < len(stk0) ==> inRS(rs, stk0[i])
 //@   requires annsOK: callerAnns != nil ==> annsOwned(callerAnns)
 //@   modifies st.stack, callerAnns.allItems, callerAnns.endIndex, callerAnns.evaluatedIndexes, callerAnns.allProperties, callerAnns.evaluatedProperties, callerAnns.evaluatedIndexes.entries, callerAnns.evaluatedProperties.entries
-//@   ensures stacklen: len(st.stack) == old(len(st.stack))
-//@   ensures stackelems: forall i int :: 0 <= i && i < len(st.stack) ==> st.stack[i] == old(st.stack[i])
+//@   ensures stacklen: len(st.stack) == len(stk0)
+//@   ensures stackelems: newOrNil(st.stack) && (forall i int :: 0 <= i && i < len(stk0) ==> st.stack[i] == old(stk0[i]))
 //@   ensures annsOK: callerAnns != nil ==> annsOwned(callerAnns)
 //@   ensures mapsI: callerAnns != nil ==> (callerAnns.evaluatedIndexes == old(callerAnns.evaluatedIndexes) || fresh(callerAnns.evaluatedIndexes))
 //@   ensures mapsP: callerAnns != nil ==> (callerAnns.evaluatedProperties == old(callerAnns.evaluatedProperties) || fresh(callerAnns.evaluatedProperties))
+//@   loopinv rsframe: st.rs == rs
 //@   loopinv caller: callerAnns != nil ==> annsOwned(callerAnns) && callerAnns.evaluatedIndexes == old(callerAnns.evaluatedIndexes) && callerAnns.evaluatedProperties == old(callerAnns.evaluatedProperties)
 //@   loopinv shaped: shaped(instance)
-//@   loopinv stacklen: len(st.stack) == old(len(st.stack)) + 1
-//@   loopinv stackelems: forall i int :: 0 <= i && i < old(len(st.stack)) ==> st.stack[i] == old(st.stack[i])
-//@   loopinv stacktop: st.stack[old(len(st.stack))] == schema
+//@   loopinv stacklen: len(st.stack) == len(stk0) + 1
+//@   loopinv stackelems: new(st.stack) && (forall i int :: 0 <= i && i < len(stk0) ==> st.stack[i] == old(stk0[i])) && st.stack[len(stk0)] == schema
 //@   loopinv anns: annsLocal(anns)
 
 //@ contract property(v, name)
